@@ -138,6 +138,20 @@ def run(oc, tier, seed):
             oks = [g for g in got if g != "EXN"]
             if len(set(oks)) != len(oks):
                 oc.spec_fail.append((case, got, "no ZID returned twice", None))
+            # the stored successor s of a date says that every suffix before s in the chain has been handed out: what
+            # is handed out from then on lies at or after s, strictly increasing along the chain
+            pos = {c: i for i, c in enumerate(chain)}
+            last = {k: pos.get(v, 0) - 1 for k, v in store.items()}
+            for k, g in zip(keys, got):
+                if g == "EXN":
+                    continue
+                p_ = pos.get(g[7:], -1)
+                if p_ <= last.get(k, -1):
+                    oc.spec_fail.append((case, {"returned": g, "history": got},
+                                         "a suffix at or before one already handed out for that date (stored successor %r) is never "
+                                         "handed out again" % store.get(k, "00"), None))
+                    break
+                last[k] = p_
             for g in oks:
                 if not re.fullmatch(r"\d{6}#[0-9A-Za-z]{2,3}", g) or any(u in g[7:] for u in _UNSUPPORTED_ZID_CHARS):
                     oc.spec_fail.append((case, g, "YYMMDD#XX[X] without look-alikes", None))
@@ -147,6 +161,29 @@ def run(oc, tier, seed):
                 oc.samples.append({"history": case, "returned": got})
         finally:
             shutil.rmtree(d, ignore_errors=True)
+
+    # ---- (2b) one date carried through the whole two-character range into the three-character range, through the
+    # real manager and its JSON file, restarted every 97 allocations: all distinct, all well-formed
+    d = tempfile.mkdtemp(prefix="c07l_")
+    try:
+        from pathlib import Path
+        os.makedirs(os.path.join(d, ".zorg"))
+        day = dt.date(2024, 3, 9)
+        n_long = 2750 if tier == "quick" else 8000
+        seen, mgr = {}, ZIDManager(Path(d))
+        for i in range(n_long):
+            if i % 97 == 0:
+                mgr = ZIDManager(Path(d))
+            z = mgr.get_next(day)
+            if z in seen or not re.fullmatch(r"240309#[0-9A-Za-z]{2,3}", z):
+                oc.spec_fail.append(({"kind": "long run on one date", "allocation": i, "first_returned_at": seen.get(z)}, z,
+                                     "every allocation on a date returns a new well-formed ZID", None))
+                break
+            seen[z] = i
+        oc.evaluations += 1
+        oc.count("long_run_allocations", len(seen))
+    finally:
+        shutil.rmtree(d, ignore_errors=True)
 
     # ---- (3) lexers, (4) is_zid, (5) recompilation ---------------------
     from zorg.shared.dates import is_zid
